@@ -4,7 +4,10 @@
    logical index; `Ok` results mean: no out-of-bounds access (Fault) and no fuel
    exhaustion (Timeout) happened.  F is the fuel handed to every loop. *)
 From Coq Require Import ZArith List Bool Arith Lia ZifyBool Permutation QArith Qround Lqa.
-From NV.C16 Require Import Model Proofs1 Proofs2 Proofs3.
+From NV.C16 Require Import Model Proofs1 Proofs2 Proofs3 ProofsSrc FibreModel FibreProofs.
+From NV.Generated Require Import QuantileMacros FffBlas.
+From NV.C16 Require Import BlasModel BlasProofs.
+From Coq Require Import Ring.
 Import ListNotations.
 Close Scope Q_scope.
 
@@ -74,6 +77,24 @@ Theorem unsigned_floor_is_floor :
   forall a : Q, (0 <= a)%Q -> unsigned_floor a = Qfloor a.
 Proof. exact ctrunc_floor. Qed.
 Print Assumptions unsigned_floor_is_floor.
+
+(* (6') the macro bodies as TRANSLATED from the current quantile.c
+   (Generated/QuantileMacros.v) are those functions: ceiling / floor of a >= 0. *)
+Theorem src_unsigned_ceil_is_ceiling :
+  forall a : Q, (0 <= a)%Q ->
+  (inject_Z (src_unsigned_ceil a) - 1 < a)%Q /\ (a <= inject_Z (src_unsigned_ceil a))%Q.
+Proof. exact src_ceil_spec. Qed.
+Print Assumptions src_unsigned_ceil_is_ceiling.
+
+Theorem src_unsigned_floor_is_floor :
+  forall a : Q, (0 <= a)%Q -> src_unsigned_floor a = Qfloor a.
+Proof. exact src_floor_spec. Qed.
+Print Assumptions src_unsigned_floor_is_floor.
+
+Theorem src_macros_are_the_model's :
+  forall a, src_unsigned_ceil a = unsigned_ceil a /\ src_unsigned_floor a = unsigned_floor a.
+Proof. intros a. split; [apply src_ceil_eq|apply src_floor_eq]. Qed.
+Print Assumptions src_macros_are_the_model's.
 
 (* (7) quantile(), interp = 0, every rational ratio r in [0,1], n >= 2:
    with p = ceil(r n): returns +inf when p = n, otherwise the p-th order statistic
@@ -181,6 +202,29 @@ Proof.
 Qed.
 Print Assumptions strided_layout.
 
+(* (12) all-but-axis iteration (PyArray_IterAllButAxis as used by _quantile.pyx, the
+   fffpy per-axis iterators): for EVERY shape, EVERY stride vector (negative,
+   non-contiguous, Fortran order ...) and every axis, the fibres handed to the
+   kernel - one per entry of the array with dims[axis] set to 1, each walking
+   shape[axis] steps of strides[axis] - together visit every element offset of
+   the array exactly once (as multisets), and each has shape[axis] entries. *)
+Theorem fibre_iteration_exact_cover :
+  forall (shape : list nat) (strides : list Z) (axis : nat),
+  axis < length shape -> length strides = length shape ->
+  Permutation (concat (fibres shape strides axis)) (offsets shape strides) /\
+  (forall f, In f (fibres shape strides axis) -> length f = nth axis shape 0).
+Proof.
+  intros shape strides axis H1 H2. split.
+  - rewrite fibres_concat. apply fibre_offsets_cover; assumption.
+  - apply fibres_length.
+Qed.
+Print Assumptions fibre_iteration_exact_cover.
+
+Example fibres_2x3_fortran_axis1 :
+  fibres [2; 3] [1; 2]%Z 1 = [[0; 2; 4]; [1; 3; 5]]%Z /\
+  fibres [2; 3] [3; -1]%Z 0 = [[0; 3]; [-1; 2]; [-2; 1]]%Z.
+Proof. split; vm_compute; reflexivity. Qed.
+
 (* non-vacuity: ties and constant arrays run through the same_extremities escape *)
 Example pth_element_ties :
   pth_element 6 [5; 1; 5; 2; 5; 5]%Z 1 = Ok ([2; 1; 5; 5; 5; 5]%Z, 2%Z) /\
@@ -194,3 +238,163 @@ Example quantile_values :
   quantile 5 [3; 1; 2; 5; 4]%Z (3 # 8) true = Ok ([2; 1; 3; 5; 4]%Z, QVal (5 # 2)) /\
   quantile 5 [3; 1; 2; 5; 4]%Z 1 false = Ok ([3; 1; 2; 5; 4]%Z, QInf).
 Proof. repeat split; vm_compute; reflexivity. Qed.
+
+(* ================================================================ fff_blas.c *)
+(* ======================================================================== *)
+(* C16 / BLAS part - paste into coq/C16/Properties.v                        *)
+(* needs:                                                                   *)
+(* ======================================================================== *)
+
+(* fff_blas_dgemm: for every TransA/TransB (NoTrans, Trans, ConjTrans), the Fortran call described by the
+   table GENERATED from fff_blas.c (flags TRANS(TransB), TRANS(TransA); m = C->size2, n = C->size1,
+   k from B; operands B then A), executed by the column-major reference DGEMM on the buffers and read back
+   row-major, is C <- alpha op(A) op(B) + beta C.  Any commutative ring; contiguous non-empty operands. *)
+Theorem blas_flag_swap_correct_dgemm :
+  forall (R : Type) (r0 r1 : R) (radd rmul rsub : R -> R -> R) (ropp : R -> R) (rdiv : R -> R -> R),
+    ring_theory r0 r1 radd rmul rsub ropp eq ->
+    forall (ta tb : cflag) (alpha beta : R) (A B C : rmat R),
+      transflag ta -> transflag tb -> wfm R A -> wfm R B -> wfm R C ->
+      (if is_tr ta then rm_s2 A else rm_s1 A) = rm_s1 C ->
+      (if is_tr tb then rm_s1 B else rm_s2 B) = rm_s2 C ->
+      (if is_tr ta then rm_s1 A else rm_s2 A) = (if is_tr tb then rm_s2 B else rm_s1 B) ->
+      fff_call R r0 r1 radd rmul rsub rdiv fff_blas_dgemm_call (env_dgemm R ta tb alpha A B beta C)
+      = Some (OpC, doc_dgemm R r0 radd rmul ta tb alpha A B beta C).
+Proof. exact flag_swap_dgemm. Qed.
+Print Assumptions blas_flag_swap_correct_dgemm.
+
+(* fff_blas_dgemv: y <- alpha op(A) x + beta y for every TransA (SWAP_TRANS, m = A->size2, n = A->size1) *)
+Theorem blas_flag_swap_correct_dgemv :
+  forall (R : Type) (r0 r1 : R) (radd rmul rsub rdiv : R -> R -> R) (ta : cflag) (alpha beta : R) (A x y : rmat R),
+    transflag ta -> wfm R A -> wfv R x -> wfv R y ->
+    (if is_tr ta then rm_s2 A else rm_s1 A) = rm_s1 y ->
+    (if is_tr ta then rm_s1 A else rm_s2 A) = rm_s1 x ->
+    fff_call R r0 r1 radd rmul rsub rdiv fff_blas_dgemv_call (env_dgemv R ta alpha A x beta y)
+    = Some (OpY, doc_dgemv R r0 radd rmul ta alpha A x beta y).
+Proof. exact flag_swap_dgemv. Qed.
+Print Assumptions blas_flag_swap_correct_dgemv.
+
+(* fff_blas_dsymm: C <- alpha S B + beta C (Left) / alpha B S + beta C (Right), S = A symmetrised from its
+   Uplo triangle in the ROW-MAJOR sense, for every Side/Uplo (SWAP_SIDE, SWAP_UPLO, m = C->size2, n = C->size1) *)
+Theorem blas_flag_swap_correct_dsymm :
+  forall (R : Type) (r0 r1 : R) (radd rmul rsub : R -> R -> R) (ropp : R -> R) (rdiv : R -> R -> R),
+    ring_theory r0 r1 radd rmul rsub ropp eq ->
+    forall (s u : cflag) (alpha beta : R) (A B C : rmat R),
+      sideflag s -> uploflag u -> wfm R A -> wfm R B -> wfm R C ->
+      rm_s1 A = rm_s2 A -> rm_s1 A = (if is_lf s then rm_s1 C else rm_s2 C) ->
+      rm_s1 B = rm_s1 C -> rm_s2 B = rm_s2 C ->
+      fff_call R r0 r1 radd rmul rsub rdiv fff_blas_dsymm_call (env_dsymm R s u alpha A B beta C)
+      = Some (OpC, doc_dsymm R r0 radd rmul s u alpha A B beta C).
+Proof. exact flag_swap_dsymm. Qed.
+Print Assumptions blas_flag_swap_correct_dsymm.
+
+(* fff_blas_dtrmm: B <- alpha op(T) B (Left) / alpha B op(T) (Right), T the Uplo triangle of A (unit diagonal
+   if Diag = Unit), for all 2 x 2 x 3 x 2 flag combinations *)
+Theorem blas_flag_swap_correct_dtrmm :
+  forall (R : Type) (r0 r1 : R) (radd rmul rsub : R -> R -> R) (ropp : R -> R) (rdiv : R -> R -> R),
+    ring_theory r0 r1 radd rmul rsub ropp eq ->
+    forall (s u ta d : cflag) (alpha : R) (A B : rmat R),
+      sideflag s -> uploflag u -> transflag ta -> diagflag d -> wfm R A -> wfm R B ->
+      rm_s1 A = rm_s2 A -> rm_s1 A = (if is_lf s then rm_s1 B else rm_s2 B) ->
+      fff_call R r0 r1 radd rmul rsub rdiv fff_blas_dtrmm_call (env_dtrxm R r0 s u ta d alpha A B)
+      = Some (OpB, doc_dtrmm R r0 r1 radd rmul s u ta d alpha A B).
+Proof. exact flag_swap_dtrmm. Qed.
+Print Assumptions blas_flag_swap_correct_dtrmm.
+
+(* fff_blas_dsyrk, SQUARE A only: the Uplo triangle (row-major sense) of C becomes
+   alpha op(A) op(A)^T + beta C, the other triangle is untouched.
+   PARTIAL: for a non-square A the wrapper passes the wrong k (A->size1 for NoTrans, A->size2 for Trans: the
+   row count of op(A), not its column count) - see blas_dsyrk_kdim_refuted. *)
+Theorem blas_flag_swap_correct_dsyrk_partial :
+  forall (R : Type) (r0 r1 : R) (radd rmul rsub : R -> R -> R) (ropp : R -> R) (rdiv : R -> R -> R),
+    ring_theory r0 r1 radd rmul rsub ropp eq ->
+    forall (u t : cflag) (alpha beta : R) (A C : rmat R),
+      uploflag u -> transflag t -> wfm R A -> wfm R C ->
+      rm_s1 A = rm_s2 A -> rm_s1 C = rm_s1 A -> rm_s2 C = rm_s1 A ->
+      fff_call R r0 r1 radd rmul rsub rdiv fff_blas_dsyrk_call (env_dsyrk R u t alpha A beta C)
+      = Some (OpC, doc_dsyrk R r0 radd rmul u t alpha A beta C).
+Proof. exact flag_swap_dsyrk_square. Qed.
+Print Assumptions blas_flag_swap_correct_dsyrk_partial.
+
+(* same for fff_blas_dsyr2k (alpha op(A) op(B)^T + alpha op(B) op(A)^T + beta C); PARTIAL: square A, B only *)
+Theorem blas_flag_swap_correct_dsyr2k_partial :
+  forall (R : Type) (r0 r1 : R) (radd rmul rsub : R -> R -> R) (ropp : R -> R) (rdiv : R -> R -> R),
+    ring_theory r0 r1 radd rmul rsub ropp eq ->
+    forall (u t : cflag) (alpha beta : R) (A B C : rmat R),
+      uploflag u -> transflag t -> wfm R A -> wfm R B -> wfm R C ->
+      rm_s1 A = rm_s2 A -> rm_s1 B = rm_s1 A -> rm_s2 B = rm_s1 A -> rm_s1 C = rm_s1 A -> rm_s2 C = rm_s1 A ->
+      fff_call R r0 r1 radd rmul rsub rdiv fff_blas_dsyr2k_call (env_dsyr2k R u t alpha A B beta C)
+      = Some (OpC, doc_dsyr2k R r0 radd rmul u t alpha A B beta C).
+Proof. exact flag_swap_dsyr2k_square. Qed.
+Print Assumptions blas_flag_swap_correct_dsyr2k_partial.
+
+(* FINDING: with a 1 x 3 matrix A the call does not compute the documented A A^T *)
+Theorem blas_dsyrk_kdim_refuted :
+  exists (u t : cflag) (alpha beta : Z) (A C : zrmat),
+    rm_s1 C = rm_s2 C /\ rm_s1 C = (if is_tr t then rm_s2 A else rm_s1 A) /\
+    zcall_dsyrk u t alpha A beta C <> Some (OpC, zdoc_dsyrk u t alpha A beta C).
+Proof. exact dsyrk_kdim_refuted. Qed.
+Print Assumptions blas_dsyrk_kdim_refuted.
+
+Theorem blas_dsyr2k_kdim_refuted :
+  exists (u t : cflag) (alpha beta : Z) (A B C : zrmat),
+    rm_s1 C = rm_s2 C /\ rm_s1 C = (if is_tr t then rm_s2 A else rm_s1 A) /\
+    rm_s1 B = rm_s1 A /\ rm_s2 B = rm_s2 A /\
+    zcall_dsyr2k u t alpha A B beta C <> Some (OpC, zdoc_dsyr2k u t alpha A B beta C).
+Proof. exact dsyr2k_kdim_refuted. Qed.
+Print Assumptions blas_dsyr2k_kdim_refuted.
+
+(* fff_blas_dtrsv / dtrsm: for every flag combination the call performs the documented ROW-MAJOR substitution
+   (forward for an effectively lower, backward for an effectively upper op(T); division uninterpreted):
+   x <- inv(op(T)) x ; B <- alpha inv(op(T)) B (Left) / alpha B inv(op(T)) (Right). *)
+Theorem blas_flag_swap_correct_dtrsv :
+  forall (R : Type) (r0 r1 : R) (radd rmul rsub rdiv : R -> R -> R) (u ta d : cflag) (A x : rmat R),
+    uploflag u -> transflag ta -> diagflag d -> wfm R A -> wfv R x ->
+    rm_s1 A = rm_s2 A -> rm_s1 x = rm_s1 A ->
+    fff_call R r0 r1 radd rmul rsub rdiv fff_blas_dtrsv_call (env_dtrsv R r0 u ta d A x)
+    = Some (OpX, doc_dtrsv R r0 r1 radd rmul rsub rdiv u ta d A x).
+Proof. exact flag_swap_dtrsv. Qed.
+Print Assumptions blas_flag_swap_correct_dtrsv.
+
+Theorem blas_flag_swap_correct_dtrsm :
+  forall (R : Type) (r0 r1 : R) (radd rmul rsub rdiv : R -> R -> R) (s u ta d : cflag) (alpha : R) (A B : rmat R),
+    sideflag s -> uploflag u -> transflag ta -> diagflag d -> wfm R A -> wfm R B ->
+    rm_s1 A = rm_s2 A -> rm_s1 A = (if is_lf s then rm_s1 B else rm_s2 B) ->
+    fff_call R r0 r1 radd rmul rsub rdiv fff_blas_dtrsm_call (env_dtrxm R r0 s u ta d alpha A B)
+    = Some (OpB, doc_dtrsm R r0 r1 radd rmul rsub rdiv s u ta d alpha A B).
+Proof. exact flag_swap_dtrsm. Qed.
+Print Assumptions blas_flag_swap_correct_dtrsm.
+
+(* the substitution used in doc_dtrsv/doc_dtrsm solves the lower-triangular system when the division is exact
+   on the diagonal.  PARTIAL: only the forward (lower) substitution; the backward one is the same algorithm on
+   reversed indices (solve_upper) and its "T x = b" statement, and the lifting to op(A) X = alpha B, are not proved. *)
+Theorem blas_trisolve_lower_solves_partial :
+  forall (R : Type) (r0 r1 : R) (radd rmul rsub : R -> R -> R) (ropp : R -> R) (rdiv : R -> R -> R),
+    ring_theory r0 r1 radd rmul rsub ropp eq ->
+    forall (T : fm R) (b : nat -> R) (n : nat),
+      (forall (i : nat) (y : R), (i < n)%nat -> rmul (T i i) (rdiv y (T i i)) = y) ->
+      forall i : nat, (i < n)%nat ->
+        sum_n R r0 radd (S i) (fun l : nat => rmul (T i l) (nth l (fwd R r0 radd rmul rsub rdiv T b n) r0)) = b i.
+Proof. exact fwd_solves_lower. Qed.
+Print Assumptions blas_trisolve_lower_solves_partial.
+
+(* non-vacuity: concrete flag combinations evaluated on small Z matrices through the GENERATED table *)
+Example blas_dgemm_example :     (* A^T B^T with A 3x2, B 2x3 *)
+  zcall_dgemm CblasTrans CblasTrans 1%Z (zm 3 2 [1; 4; 2; 5; 3; 6]%Z) (zm 2 3 [1; 0; 1; 0; 1; 1]%Z) 0%Z (zm 2 2 [0; 0; 0; 0]%Z)
+  = Some (OpC, [4; 5; 10; 11]%Z).
+Proof. vm_compute. reflexivity. Qed.
+
+Example blas_dsymm_example :     (* Right, Lower: B S with S = [[1 2][2 3]] read from the lower triangle (9 is ignored) *)
+  zcall_dsymm CblasRight CblasLower 1%Z (zm 2 2 [1; 9; 2; 3]%Z) (zm 1 2 [1; 1]%Z) 0%Z (zm 1 2 [0; 0]%Z)
+  = Some (OpC, [3; 5]%Z).
+Proof. vm_compute. reflexivity. Qed.
+
+Example blas_dtrsm_example :     (* Left, Upper, NoTrans, NonUnit: [[1 2][0 -1]] X = [[5 6][7 8]] *)
+  zcall_dtrsm CblasLeft CblasUpper CblasNoTrans CblasNonUnit 1%Z (zm 2 2 [1; 2; 0; -1]%Z) (zm 2 2 [5; 6; 7; 8]%Z)
+  = Some (OpB, [19; 22; -7; -8]%Z).
+Proof. vm_compute. reflexivity. Qed.
+
+Example blas_dsyrk_example :     (* Upper, Trans, square: upper triangle of A^T A, lower entry 7 untouched *)
+  zcall_dsyrk CblasUpper CblasTrans 1%Z (zm 2 2 [1; 2; 3; 4]%Z) 0%Z (zm 2 2 [0; 0; 7; 0]%Z)
+  = Some (OpC, [10; 14; 7; 20]%Z).
+Proof. vm_compute. reflexivity. Qed.
+
